@@ -1606,7 +1606,7 @@ class Collection(object):
     def drop_indexes(self, session=None):
         if session:
             raise_not_implemented('session', 'Mongomock does not handle sessions yet')
-        self._store.indexes = {}
+        self._store.drop_indexes()
 
     if helpers.PYMONGO_VERSION < version.parse('4.0'):
         def reindex(self, session=None):
